@@ -32,13 +32,15 @@ def run(prop, tier, seed):
     plan = [("UnitSquare", 2, 2, 2), ("PiSquare", 1, 2, 2), ("LShape", 1, 1, 2), ("Circle", 4, 2, 2), ("UnitInterval", 3, 2, 2)]
     if not quick:
         plan = [("UnitSquare", 3, 2, 2), ("PiSquare", 2, 2, 2), ("LShape", 2, 2, 2), ("Circle", 5, 2, 2), ("UnitInterval", 4, 2, 2)]
+    # the same abstract pairs on a strongly time-graded scale (h_t down to 1/1024; only small elements keep aspect <= 32)
+    plan += [("UnitSquare", 3, 1, 1, 1.0 / 256), ("Circle", 5, 1, 1, 1.0 / 128)]
     per_class = 2 if quick else 12
     stats = []
     total = 0
     classes = set()
     worst = {}
     samples = []
-    for name, maxl, tlevels, th in plan:
+    for name, maxl, tlevels, th, *tu in plan:
         res, pairs = pl.model_pairs(name, maxl, tlevels, th)
         st = {"curve": name, "MaxL": maxl, "TLevels": tlevels, "TH": th, "tlc": res.stats(), "pairs_in_model": len(pairs)}
         if res.machinery_error:
@@ -50,7 +52,8 @@ def run(prop, tier, seed):
                           {"curve": name, "tlc_output_tail": res.output[-2500:]})
             stats.append(st)
             continue
-        sh = pl.Shape(name, maxl, tlevels)
+        sh = pl.Shape(name, maxl, tlevels, *tu)
+        st["time_unit"] = sh.tunit
         # population: causal pairs with admissible aspect; stratify by class
         by = {}
         dropped = 0
@@ -133,7 +136,7 @@ def run(prop, tier, seed):
     st_self = {}
     if recs:
         import copy
-        name, maxl, tlevels, th = plan[-1]
+        name, maxl, tlevels, th = plan[-1][:4]
         a = copy.deepcopy(recs[:6])
         a[1]["dev"] = 5_000_000
         k = next((i for i, r in enumerate(a) if r.get("decomp")), None)
